@@ -15,7 +15,8 @@ CONSTANTS Cap,        \* capacity of each pipe, in chunks
           Plans,      \* child plans to explore
           Tolerant
 
-AllPlans == { "absent", "ok", "fail_after_read", "fail_no_read", "killed", "empty", "stream" }
+AllPlans == { "absent", "ok", "fail_after_read", "fail_no_read", "killed", "empty", "garbage_no_read", "stream" }
+(* "garbage_no_read": exits successfully before reading its input but prints something - which cannot be the program *)
 (* "stream" (writes output while still reading input) is NOT among the faults C19 lists; it is  *)
 (* modelled so that its deadlock is a named, known behaviour rather than a surprise.            *)
 
@@ -24,19 +25,20 @@ VARIABLES ppc, cpc, plan, size,
           inW,               \* parent's write end open?
           outPipe, outW,     \* stdout pipe: chunks buffered, write end open?
           toWrite, childRead, childOut, got,
+          garbage,           \* what the child printed is not the formatted program
           status,            \* "running" | "exit0" | "exit1" | "signal"
           result
-vars == << ppc, cpc, plan, size, inPipe, inR, inW, outPipe, outW, toWrite, childRead, childOut, got, status, result >>
+vars == << ppc, cpc, plan, size, inPipe, inR, inW, outPipe, outW, toWrite, childRead, childOut, got, garbage, status, result >>
 
 Init ==
   /\ plan \in Plans /\ size \in Sizes
   /\ ppc = "spawn" /\ cpc = "none"
   /\ inPipe = 0 /\ inR = FALSE /\ inW = FALSE /\ outPipe = 0 /\ outW = FALSE
-  /\ toWrite = size /\ childRead = 0 /\ childOut = 0 /\ got = 0
+  /\ toWrite = size /\ childRead = 0 /\ childOut = 0 /\ got = 0 /\ garbage = FALSE
   /\ status = "running" /\ result = "pending"
 
 ChildAlive == cpc \notin { "none", "dead" }
-PU == UNCHANGED << plan, size >>
+PU == UNCHANGED << plan, size, garbage >>
 
 (* ---------------------------------------------------------------- parent *)
 PSpawn ==
@@ -76,7 +78,8 @@ PWait ==
   /\ ppc = "wait" /\ status # "running" /\ PU
   /\ ppc' = "decide"
   /\ UNCHANGED << cpc, inPipe, inR, inW, outPipe, outW, toWrite, childRead, childOut, got, status, result >>
-Complete == got = size /\ toWrite = 0
+(* the formatted program arrived: all of it, and it is the program (the tolerant parent compares the tokens) *)
+Complete == got = size /\ toWrite = 0 /\ ~garbage
 PDecide ==
   /\ ppc = "decide" /\ PU
   /\ ppc' = "done"
@@ -89,15 +92,17 @@ Parent == PSpawn \/ PWrite \/ PWritten \/ PCloseStdin \/ PDrain \/ PWait \/ PDec
 
 (* ---------------------------------------------------------------- child *)
 CU == UNCHANGED << ppc, plan, size, toWrite, got, result, inW >>
+GU == UNCHANGED garbage
 Die(st) == /\ cpc' = "dead" /\ status' = st /\ inR' = FALSE /\ outW' = FALSE
 
 CStart ==
   /\ cpc = "start" /\ CU
-  /\ IF plan = "fail_no_read" THEN Die("exit1") /\ UNCHANGED << inPipe, outPipe, childRead, childOut >>
-     ELSE cpc' = "read" /\ UNCHANGED << inPipe, inR, outPipe, outW, childRead, childOut, status >>
+  /\ IF plan = "fail_no_read" THEN Die("exit1") /\ GU /\ UNCHANGED << inPipe, outPipe, childRead, childOut >>
+     ELSE IF plan = "garbage_no_read" THEN cpc' = "emit" /\ childOut' = 1 /\ garbage' = TRUE /\ UNCHANGED << inPipe, inR, outPipe, outW, childRead, status >>
+     ELSE cpc' = "read" /\ GU /\ UNCHANGED << inPipe, inR, outPipe, outW, childRead, childOut, status >>
 (* read one chunk; at EOF (pipe empty and write end closed) go on according to the plan *)
 CRead ==
-  /\ cpc = "read" /\ CU
+  /\ cpc = "read" /\ CU /\ GU
   /\ \/ /\ inPipe > 0 /\ inPipe' = inPipe - 1 /\ childRead' = childRead + 1
         /\ IF plan = "stream" THEN childOut' = childOut + 1 /\ cpc' = "emit" ELSE UNCHANGED << childOut, cpc >>
         /\ UNCHANGED << inR, outPipe, outW, status >>
@@ -107,7 +112,7 @@ CRead ==
              [] plan = "stream" -> Die("exit0") /\ UNCHANGED << inPipe, outPipe, childRead, childOut >>
              [] OTHER -> cpc' = "emit" /\ childOut' = childRead /\ UNCHANGED << inPipe, inR, outPipe, outW, childRead, status >>
 CEmit ==
-  /\ cpc = "emit" /\ CU
+  /\ cpc = "emit" /\ CU /\ GU
   /\ \/ /\ childOut > 0 /\ outPipe < Cap
         /\ outPipe' = outPipe + 1 /\ childOut' = childOut - 1
         /\ UNCHANGED << cpc, inPipe, inR, outW, childRead, status >>
@@ -116,7 +121,7 @@ CEmit ==
            ELSE Die("exit0") /\ UNCHANGED << inPipe, outPipe, childRead, childOut >>
 (* a signal can strike at any point of the child's life *)
 CKilled ==
-  /\ plan = "killed" /\ ChildAlive /\ CU
+  /\ plan = "killed" /\ ChildAlive /\ CU /\ GU
   /\ Die("signal") /\ UNCHANGED << inPipe, outPipe, childRead, childOut >>
 
 Child == CStart \/ CRead \/ CEmit \/ CKilled
